@@ -4,6 +4,7 @@ package gen
 
 import (
 	"math"
+	"strings"
 	"time"
 
 	cpb "github.com/google/fhir/go/proto/google/fhir/proto/r4/core/codes_go_proto"
@@ -119,7 +120,9 @@ var (
 	IntSrcs = []string{"0", "1", "-1", "2", "-2", "3", "7", "10", "46340", "46341", "-46341", "65536", "2147483646", "2147483647", "-2147483647", "(-2147483647 - 1)", "%minint", "%fint", "%fminint", "%fpos", "%funs", "%fbig"}
 	DecSrcs = []string{"0.0", "0.00", "1.0", "1.00", "-1.0", "0.5", "1.5", "2.5", "-0.5", "-2.5", "3.14159", "0.1", "100.0",
 		"1000000000000000000000000000000.0", "0.000000000000000000000000000001", "99999999999.9", "-99999999999.9",
-		"12345678901234567890.123456789", "2147483647.5", "2147483648.0", "-2147483648.5", "%fdec"}
+		"12345678901234567890.123456789", "2147483647.5", "2147483648.0", "-2147483648.5", "%fdec",
+		// beyond the float64 range in both directions (functions that go through float64 must not fail on them)
+		"1" + strings.Repeat("0", 320) + ".0", "-1" + strings.Repeat("0", 320) + ".0", "0." + strings.Repeat("0", 330) + "1"}
 	StrSrcs = []string{"''", "'abc'", "'a'", "'é'", "'h€llo😀'", "'é'", "'a\\'b'", "' 1'", "'1'", "'+1'", "'-1'", "'1.0'", "'1e3'", "'abc1'", "'true'", "'yes'", "'T'",
 		"'2020'", "'2020-01-01'", "'2020-13-01'", "'2020-01-01T10:00:00Z'", "'@2020'", "'T10:00'", "'10:00'", "'24:00'", "'25:00'", "'5 \\'mg\\''", "'5'", "'5 days'", "'1 \\'wk\\''", "'5 mg'", "'(['", "'a.b'",
 		"%fstr", "%fstrn", "%fcode", "%fenum", "%furi", "%fb64"}
